@@ -112,7 +112,10 @@ class Impl:
         seq = [self.item(x) for x in items]
         keyf = None if self.u in ("self", "spec") else (lambda t: t[0])
         if self.typed:
-            T = {"self": KL[str, str], "tuple": KL[tuple, str], "intkey": KL[tuple, int]}.get(self.u)
+            from typing import Union
+            # self-keyed universe: the item type admits the ill-typed items (ints), so it is the
+            # KEY type check (default key extraction, no key function) that has to reject them
+            T = {"self": KL[Union[str, int], str], "tuple": KL[tuple, str], "intkey": KL[tuple, int]}.get(self.u)
             if self.u == "spec":
                 T = KL[self.Item, str]
             return T(seq, key=keyf)
